@@ -252,8 +252,10 @@ class Script:
         self.lines = list(lines)
         self.meta = meta or {}
 
-    def text(self):
-        return "=== %s %s %s\n%s\n" % (self.id, self.engine, " ".join(self.args), "\n".join(self.lines))
+    def text(self, model=False):
+        # GHOST lines are operations of the harness only (a bystander object created and destroyed at once)
+        lines = [l for l in self.lines if not l.startswith("GHOST ")] if model else self.lines
+        return "=== %s %s %s\n%s\n" % (self.id, self.engine, " ".join(self.args), "\n".join(lines))
 
 
 def parse_out(out):
@@ -268,7 +270,7 @@ def parse_out(out):
 
 
 def run_model(driver, scripts, timeout=600):
-    inp = "".join(s.text() for s in scripts)
+    inp = "".join(s.text(model=True) for s in scripts)
     p = subprocess.run([driver], input=inp, stdout=subprocess.PIPE, stderr=subprocess.PIPE, text=True, timeout=timeout)
     res = parse_out(p.stdout)
     if p.returncode != 0:
